@@ -18,9 +18,8 @@ PROP = 'C17'
 OWN = '7172'   # R's own queued bundle (one START|END segment, transfer id 1)
 
 
-def v3_header():
+def v3_header(eid=b'dtn://old/'):
     # TCPCLv3 contact header: magic, version 3, flags, keepalive(2), SDNV length, EID
-    eid = b'dtn://old/'
     return b'dtn!' + bytes([3, 0]) + b'\x00\x00' + bytes([len(eid)]) + eid
 
 
@@ -30,6 +29,7 @@ def alphabet():
         ('ch-good', T.enc_contact(0)),
         ('ch-bad-magic', T.enc_contact(0, magic=b'dtn?')),
         ('ch-v3', v3_header()),
+        ('ch-v3-not-utf8', v3_header(b'dtn://\xff\xfe\x80/')),
         ('ch-v5', T.enc_contact(0, version=5)),
         ('ch-v255', T.enc_contact(0, version=255)),
         ('sess-init', T.enc_sess_init(0, 64, 1000, b'dtn://peer/')),
@@ -357,6 +357,9 @@ class AdvWorld(PeerWorld):
 
 def build(params):
     params = dict(params)
+    if params.get('scripted_peer'):
+        from .c09 import TermPeerWorld
+        return TermPeerWorld(dict(params, prop=PROP))
     prefix = params.pop('prefix', [])
     world = AdvWorld(params)
     pending = []
@@ -371,9 +374,17 @@ def scenarios(tier):
     depth = 6 if tier == "thorough" else 5
     out = []
     # the space is split by the first two peer messages so that it spreads over the workers
+    # an out-of-place message arriving while an own transfer is being written in small chunks (every
+    # callback of the endpoint is a separate step, so the message can land between two writes of one segment)
+    for role in ('passive', 'active'):
+        for stray in ('ack', 'refuse'):
+            nm = 'mid-write/%s/stray-%s' % (role, stray)
+            out.append(dict(name=nm, kind='graph', dev_bound=0, max_states=600000, liveness=False, weight=30,
+                            params=dict(scripted_peer=True, role=role, bundles=[bytes(range(0xa0, 0xa9)).hex()], chunk=9,
+                                        refuse=False, user_term=False, peer_term=False, stray=stray)))
     for role in ('passive', 'active'):
         tag = '' if role == 'passive' else 'active/'
-        for first in ('ch-bad-magic', 'ch-v3', 'ch-v5', 'ch-v255'):
+        for first in ('ch-bad-magic', 'ch-v3', 'ch-v3-not-utf8', 'ch-v5', 'ch-v255'):
             out.append(dict(name='%s%s' % (tag, first), kind='graph', params=dict(max_depth=depth, prefix=[first], role=role),
                             dev_bound=0, max_states=2000000, liveness=False, validate_every=20, weight=1))
         for name in NAMES:
@@ -391,9 +402,10 @@ ASSUMPTIONS = [
     'the first thing a peer sends is some contact header (good, bad magic, TCPCLv3, version 5 or 255); anything else at that point is the bad-magic case',
     'after the peer\'s own SESS_TERM, after an unknown message type (framing lost) and after closure only "no escaped exception, output decodable" is required',
     'a refusal may be MSG_REJECT, SESS_TERM or closing the connection',
+    'mid-write graphs: a scripted peer that acknowledges in order and sends one acknowledgement / refusal of a non-existent transfer at any point, against an endpoint writing a three-segment transfer in 9-octet chunks; every callback is a step',
 ]
 
-RULE = ('explicit-state BFS: every sequence of adversarial messages (20-message alphabet incl. bad headers, out-of-place '
+RULE = ('explicit-state BFS: every sequence of adversarial messages (21-message alphabet incl. bad headers, out-of-place '
         'and unknown-id messages, unknown type) up to the depth bound, in every reachable state of a real endpoint (passive and active role) '
         'holding one transfer of its own; reference receiver model decides expected ACKs/deliveries/refusals; an epilogue '
         'with a correct transfer in each direction is run from every in-session state')
